@@ -713,8 +713,62 @@ def reverse_diff_side(ctx, cr):
             op, sorted(("rhs>=lhs:%s" % g, s_) for g, s_ in got), want_desc), fn=f, sample={"operator": op, "table": sorted(map(str, got))})
 
 
+def negated_difference_rebuilt(ctx, cr):
+    """when the negation wrapper turns a query-vs-query Success into a Fail (or the reverse) the difference list that travels with the
+    result is what the caller counts the failures by: it must be rebuilt for the new verdict (QueryIn::new(<recomputed list>, lhs,
+    rhs)) — handing the comparison's own QueryIn on under the opposite verdict keeps an EMPTY difference on a Fail, and a clause with no
+    failures passes: `not X == Y` would pass whenever `X == Y` does."""
+    from rules.c08 import def_of_local
+    rule = "R-C03-flip-tables"
+    k = "<(rules::values::CmpOperator,bool) as rules::eval::operators::Comparator>::compare"
+    CMP = "rules::eval::operators::Compare"
+    if k not in cr.fns or CMP not in cr.adts:
+        ctx.lost(rule, rule + ":difference-rebuilt", k)
+        return
+    cn = [v["name"] for v in cr.adts[CMP]["variants"]]
+    from engine import flow
+    built, reused = 0, []
+    for kk in flow.unit_functions(cr, k, ("rules::eval::operators",), depth=2):
+        fx = cr.fns.get(kk)
+        if fx is None or not (kk == k or kk.startswith(k + "::{closure") or ai.is_private_fn(fx)):
+            continue
+        for bi, si, st in M.iter_stmts(fx):
+            rv = st.get("rv")
+            if not (rv and rv.get("r") == "agg" and rv.get("adt") == CMP and cn[rv["vi"]] in ("QueryIn", "ListIn")):
+                continue
+            pl = M.op_place(rv["ops"][0]) if rv["ops"] else None
+            src = "?"
+            for _ in range(6):
+                if pl is None:
+                    break
+                if not isinstance(pl, int):
+                    src = "moved"
+                    break
+                d = def_of_local(fx, pl)
+                if not d:
+                    break
+                if d[0] == "call":
+                    src = "new" if M.norm_path(d[2]["fn"].get("path", "")).split("::")[-1] == "new" else "call:" + M.norm_path(d[2]["fn"].get("path", ""))
+                    break
+                rv2 = d[2]["rv"]
+                if rv2["r"] == "use":
+                    pl = M.op_place(rv2["o"])
+                elif rv2["r"] == "agg":
+                    src = "new"
+                    break
+                else:
+                    break
+            if src == "new":
+                built += 1
+            else:
+                reused.append("%s(%s) (l.%s)" % (cn[rv["vi"]], src, st.get("ln")))
+    ctx.ob(rule, rule + ":difference-rebuilt", built >= 4 and not reused, ("the negation wrapper hands on %s under the flipped verdict without rebuilding its difference list" % reused) if reused
+           else "%d flipped results, each built by QueryIn::new / ListIn::new with a recomputed difference" % built, fn=cr.fns[k])
+
+
 def run(ctx):
     cr = ctx.lib
+    negated_difference_rebuilt(ctx, cr)
     negation_flows(ctx, cr)
     negation_exact(ctx, cr)
     parameterized_call(ctx, cr)
